@@ -101,6 +101,8 @@ class OnDiskSuite(Suite):
                 new = 3 - live if live in (1, 2) else 1
                 seq.append(("reopen", new, live, rng.choice(["abs-other-cwd", "rel-same-cwd", "abs"])))
                 live = new
+            elif rng.random() < 0.4:
+                seq.append(("clear", live))
             else:
                 seq.append(("obs", live))
         seq.append(("close", live))
@@ -306,6 +308,12 @@ class OnDiskSuite(Suite):
                         D["err:export:" + res[1]] += 1
                         d["payload"] = res[1]
                     out.append((f"od.export {h}", d))
+                elif op[0] == "clear":
+                    tr = FileTracer(path)
+                    res = tr.run(obj.clear)
+                    d = self.obs(obj, path, ret_str(res))
+                    d["trace"] = ",".join(s.hex() for s in tr.snaps)
+                    out.append((f"od.clear {h}", d))
                 elif op[0] == "obs":
                     out.append((f"od.obs {h}", self.obs(obj, path, "None")))
         finally:
